@@ -38,6 +38,8 @@ THEOREMS = [
     "AiuVerif.C01.out_of_domain_is_conditional",
     "AiuVerif.C01.specKept_iff",
     "AiuVerif.C01.default_keeps_all",
+    "AiuVerif.C01.sort_is_pass",
+    "AiuVerif.C01.barrier_is_pass",
 ]
 RULE = ("random rich scenarios (gen/rich.py: 1..4 ranks, chain all-reduce groups, kernels, host slices as X and B/E, ties, "
         "nesting, staggered partial overlaps up to the 5-extra-lane budget, zero/negative durations, 1/16 us device slices, "
